@@ -247,6 +247,10 @@ package core
 //@   props C10
 //@   flags nilchan
 //@   requires [C10:the-attempt-result-channel-exists] errChan != nil
+// every attempt gets a context of its own: one this function has cancelled already (the previous attempt's) would make
+// Sync return at once without asking any peer, for ever. (ctxDone of a derived context: done when its parent was done at
+// creation, or once its cancel function has been called.)
+//@   requires [C10:an-attempt-runs-with-a-context-this-function-has-not-cancelled] ctxDone(syncCtx) ==> ctxDone(ctx)
 // [wf]: well-formedness assumption about the sync manager NewSyncManager returned (never an obligation of a caller)
 //@   requires [wf] syncer != nil && beacon.syncConfigured(syncer)
 
@@ -332,3 +336,36 @@ package core
 //@ func (*BeaconProcess).GetIdentity(bp, ctx, in) (res, err)
 //@   props C14
 //@   flags lockcheck nopanic=C14 recovered
+
+// ---- C14: lock discipline of every other function of the daemon that takes a lock (zero-annotation sweep) -------------
+// Only `lockcheck`: every lock acquired is released on every path, no release of a lock not held, no acquisition of a
+// lock a callee takes again. (Left out for cost or because they need well-formedness preconditions of other properties:
+// newBeacon, Status, StartCheckChain, chainInfoFromPeers, DrandDaemon.init; DrandDaemon.Stop iterates the table of chains
+// without dd.state: operator-triggered shutdown, outside the remote-request scope of C14, noted in DESIGN.md.)
+//@ func (*BeaconProcess).Load(bp, ctx) (err)
+//@   props C14
+//@   flags lockcheck
+//@ func (*BeaconProcess).Stop(bp, ctx)
+//@   props C14
+//@   flags lockcheck
+//@ func (*BeaconProcess).StopBeacon(bp, ctx)
+//@   props C14
+//@   flags lockcheck
+//@ func (*BeaconProcess).PublicKey(bp, ctx, in) (res, err)
+//@   props C14
+//@   flags lockcheck
+//@ func (*BeaconProcess).GroupFile(bp, ctx, in) (res, err)
+//@   props C14
+//@   flags lockcheck
+//@ func (*BeaconProcess).BackupDatabase(bp, ctx, req) (res, err)
+//@   props C14
+//@   flags lockcheck
+//@ func NewDrandDaemon(ctx, c) (dd, err)
+//@   props C14
+//@   flags lockcheck
+//@ func (*DrandDaemon).InstantiateBeaconProcess(dd, ctx, beaconID, store) (bp, err)
+//@   props C14
+//@   flags lockcheck
+//@ func (*DrandDaemon).ListBeaconIDs(dd, ctx, in) (res, err)
+//@   props C14
+//@   flags lockcheck
